@@ -8,7 +8,7 @@
 (*    index it was mapped to, region by region.                            *)
 (* Coordinates are F2Dot14 bit patterns; regions = Seq(<<start,peak,end>>).*)
 (***************************************************************************)
-EXTENDS Integers, Sequences, FiniteSets
+EXTENDS Integers, Sequences, FiniteSets, Tent
 
 U8(b, off)  == b[off + 1]
 I8(b, off)  == IF b[off + 1] >= 128 THEN b[off + 1] - 256 ELSE b[off + 1]
@@ -37,23 +37,6 @@ Lookup(datas, outer, inner, r) ==
        IF inner >= d.item_count THEN 0
        ELSE LET ks == {k \in DOMAIN d.region_indexes : d.region_indexes[k] = r} IN
             IF ks = {} THEN 0 ELSE Cell(d, inner, CHOOSE k \in ks : TRUE)
-
-\* ---- tent scalars as rationals <<num, den>> with den > 0 ---------------------------
-AxisScalar(ax, c) ==
-  LET s == ax[1] p == ax[2] e == ax[3] IN
-  IF s > p \/ p > e THEN <<1, 1>>
-  ELSE IF s < 0 /\ e > 0 /\ p # 0 THEN <<1, 1>>
-  ELSE IF p = 0 THEN <<1, 1>>
-  ELSE IF c < s \/ c > e THEN <<0, 1>>
-  ELSE IF c = p THEN <<1, 1>>
-  ELSE IF c < p THEN <<c - s, p - s>>
-  ELSE <<e - c, e - p>>
-RECURSIVE RegionScalar(_, _, _)
-RegionScalar(region, coords, i) ==
-  IF i > Len(region) THEN <<1, 1>>
-  ELSE LET a == AxisScalar(region[i], IF i <= Len(coords) THEN coords[i] ELSE 0)
-           rest == RegionScalar(region, coords, i + 1)
-       IN <<a[1] * rest[1], a[2] * rest[2]>>
 
 \* exact delta at a location as a rational: sum over final regions of scalar * stored delta
 RECURSIVE SumAt(_, _, _, _, _, _)
